@@ -358,6 +358,9 @@ func VString(v *ast.Value) string { panic("ghost") }
 //@ ensures[keys-b] err == nil ==> forallT(k, string, has(b, k) && !hasprefix(k, "__") ==> has(result, k)) @props C03
 //@ ensures[keys-only] err == nil ==> forallT(k, string, has(result, k) ==> has(a, k) || (has(b, k) && !hasprefix(k, "__"))) @props C03
 //@ ensures[kind-clash-rejected] err == nil ==> forallT(k, string, has(a, k) && has(b, k) && !hasprefix(k, "__") && b[k].Name != "Node" ==> a[k].Kind == b[k].Kind) @props C05
+// C05/C03: a union declared by two services must have the same members in both
+//@ ensures[union-a-in-b] err == nil ==> forallT(k, string, has(a, k) && has(b, k) && !hasprefix(k, "__") && b[k].Name != "Node" && b[k].Kind == ast.Union ==> forall(i, 0, len(a[k].Types), inStrings(b[k].Types, a[k].Types[i]))) @using union-a @props C05 C03
+//@ ensures[union-b-in-a] err == nil ==> forallT(k, string, has(a, k) && has(b, k) && !hasprefix(k, "__") && b[k].Name != "Node" && b[k].Kind == ast.Union ==> forall(i, 0, len(b[k].Types), inStrings(a[k].Types, b[k].Types[i]))) @using union-b @props C05 C03
 // C04/C05: a root type shared by two services is merged by mergeRootObjects, which rejects a root field declared
 // twice; the merge of shared value types (complete copies allowed) must never be applied to Query, Mutation or Subscription
 //@ callsite mergeCustomObjects requires[roots-are-not-value-types] k != "Query" && k != "Mutation" && k != "Subscription" @props C04 C05
@@ -370,6 +373,13 @@ func VString(v *ast.Value) string { panic("ghost") }
 //@ loop 1 invariant[keys-b] forallT(k, string, seen(k) && !hasprefix(k, "__") ==> has(result, k)) @using keys-b, wf
 //@ loop 1 invariant[keys-only] forallT(k, string, has(result, k) ==> has(a, k) || (has(b, k) && seen(k) && !hasprefix(k, "__"))) @using keys-only, wf
 //@ loop 1 invariant[kinds] forallT(k, string, seen(k) && has(a, k) && !hasprefix(k, "__") && b[k].Name != "Node" ==> a[k].Kind == b[k].Kind) @using kinds, akeep, wf
+//@ loop 1 invariant[union-a] forallT(k, string, seen(k) && has(a, k) && !hasprefix(k, "__") && b[k].Name != "Node" && b[k].Kind == ast.Union ==> forall(i, 0, len(a[k].Types), inStrings(b[k].Types, a[k].Types[i]))) @using union-a, akeep, wf
+//@ loop 1 invariant[union-b] forallT(k, string, seen(k) && has(a, k) && !hasprefix(k, "__") && b[k].Name != "Node" && b[k].Kind == ast.Union ==> forall(i, 0, len(b[k].Types), inStrings(a[k].Types, b[k].Types[i]))) @using union-b, akeep, wf
+// (the two name lists built for interfaces are new arrays: nothing else changes while they are filled)
+//@ loop 2 modifies fresh
+//@ loop 2 invariant[own] base(anames) == 0 || freshloop(anames)
+//@ loop 3 modifies fresh
+//@ loop 3 invariant[own] base(bnames) == 0 || freshloop(bnames)
 //@ loop 1 invariant[akeep] forallT(k, string, has(a, k) && !seen(k) ==> fresh(result[k]) && result[k].Kind == a[k].Kind && sameslice(result[k].Interfaces, a[k].Interfaces) && sameslice(result[k].Types, a[k].Types)) @using akeep, wf
 //@ end
 
